@@ -75,6 +75,28 @@ def nbdime_reset():
             if table.get(k, None) is not v:
                 dict.__setitem__(table, k, v)
     mg._merge_strings.recursion = False
+    install_stubs()
+
+
+# pure boolean leaf predicates of nbdime that sx explores as one summarised
+# decision (state merging; the summary is computed from the real function)
+SUMMARIZED = ("equal_json_values",)
+
+
+def install_stubs():
+    """Proxy-aware isinstance in every loaded nbdime module (part of the
+    claim: semantically identical to the builtin on ordinary objects)."""
+    import sys as _sys
+    from sx.values import sym_isinstance, summarized
+    for name, mod in list(_sys.modules.items()):
+        if mod is not None and (name == "nbdime" or name.startswith("nbdime.")) \
+                and ".tests" not in name:
+            if mod.__dict__.get("isinstance") is not sym_isinstance:
+                mod.__dict__["isinstance"] = sym_isinstance
+            for fname in SUMMARIZED:
+                f = mod.__dict__.get(fname)
+                if f is not None and callable(f) and not getattr(f, "_sx_summarized", False):
+                    mod.__dict__[fname] = summarized(f)
 
 
 def silence_logging():
